@@ -17,6 +17,8 @@ REGIMES = [G.R_MDISL] * 6 + [G.R_YIELD] * 2 + [G.R_MINV, G.R_MAXV, G.R_MDIFF]
 
 def generate(seed, tier="quick"):
     rng = G.rng_of("C06", seed)
+    if rng.random() < 0.18:
+        return _gen_compact(rng, seed)
     shared = rng.random() < 0.5
     world = S.gen_world(
         rng, regimes=REGIMES, shared_env=shared,
@@ -39,6 +41,57 @@ def generate(seed, tier="quick"):
     if shared and len(world["minerals"]) > 1 and rng.random() < 0.7:
         ops = _bulk_history(rng, world)
     return {"property": PROPERTY, "engine": "world", "seed": seed, "world": world, "ops": ops}
+
+
+def _gen_compact(rng, seed):
+    """Velocity-gradient fields with compact support: a pulse in time, or a shear band in
+    space crossed by the particle.  One update of the history spans the support, so L is
+    exactly zero at both ends of that update and non-zero in between; the other updates lie
+    in the rigid (L == 0) regions.  In the 'tight' variant (85%) the support starts within
+    the first few percent of the spanning interval, where the solver's first step lands; in
+    the 'deep' variant the support lies well inside (the adaptive solver may step over it:
+    known finding KF-C06-compact-support)."""
+    nm = rng.choice([1, 1, 2])
+    world = S.gen_world(rng, regimes=REGIMES, shared_env=True, n_minerals=nm,
+                        flow_families=[rng.choice(["pulse", "band"])],
+                        n_choices=[2, 3, 4, 8, 16])
+    for m in world["minerals"]:
+        if rng.random() < 0.7:
+            m["F0"] = G.gen_F0(rng)
+    parts = G.partition(rng, 0.0, rng.choice([1.0, 2.0, 3.0]), n_max=rng.choice([1, 2, 3, 4]),
+                        style=rng.choice(["uniform", "random", "single"]))
+    j = rng.randrange(len(parts))
+    t0, t1 = parts[j]
+    span = t1 - t0
+    deep = rng.random() < 0.15
+    if deep:
+        d0, d1 = rng.uniform(0.2, 0.4), rng.uniform(0.2, 0.4)
+    else:
+        d0, d1 = rng.choice([0.0, 0.01, 0.03]), rng.choice([0.0, 0.01, 0.03, 0.2])
+    a, b = t0 + d0 * span, t1 - d1 * span
+    fl = world["flows"][0]
+    if fl["family"] == "pulse":
+        fl["gate"] = [a, b]
+    else:
+        ax, w, c = fl["axis"], fl["w"], fl["c"]
+        side = rng.choice([-1.0, 1.0])
+        v_ax = 2 * w * side / (b - a)
+        x0 = [rng.uniform(-0.3, 0.3) for _ in range(3)]
+        x0[ax] = c - side * w - v_ax * a
+        v = [rng.uniform(-0.05, 0.05) for _ in range(3)]
+        v[ax] = v_ax
+        world["paths"][0] = {"kind": "line", "x0": x0, "v": v}
+    ops = []
+    for (x, y) in parts:
+        if nm > 1:
+            order = list(range(nm))
+            rng.shuffle(order)
+            ops.append({"op": "update_all", "ms": order, "t0": x, "t1": y, "flow": 0, "path": 0,
+                        "params": 0})
+        else:
+            ops.append({"op": "update", "m": 0, "t0": x, "t1": y})
+    return {"property": PROPERTY, "engine": "world", "seed": seed, "world": world, "ops": ops,
+            "compact": "deep" if deep else "tight"}
 
 
 def _bulk_history(rng, world):
@@ -68,6 +121,7 @@ class C06Monitor:
         self.c = {}
         self.maxima = {}
         self.cum = {}  # mineral idx -> (F_ref_cumulative, N, strain)
+        self.compact = False
 
     def v(self, clause, i, m, detail):
         self.verdicts.append({"property": PROPERTY, "clause": clause, "op": i, "m": m,
@@ -102,12 +156,20 @@ class C06Monitor:
         b = call_bound(1, eps)
         self.inc("calls_checked")
         self.inc(f"calls_checked.{flow.family}")
+        if flow.family in ("pulse", "band") and rec["steps"] >= 1:
+            self.compact = True
+        if flow.family in ("pulse", "band") and eps > 0:
+            z0 = not np.any(flow.base(op["t0"], path.base(op["t0"])))
+            z1 = not np.any(flow.base(op["t1"], path.base(op["t1"])))
+            if z0 and z1:
+                self.inc("calls_with_L_zero_at_both_ends_but_not_between")
         if rec["op"] == "update_all":
             self.inc("bulk_calls_checked")
         self.mx("per_call_rel_over_bound", rel / b)
         if rel > b:
             self.v("per_call" if rec["op"] == "update" else "bulk", i, m0,
                    {"rel": rel, "bound": b, "strain": eps, "family": flow.family,
+                    "solver_steps": rec["steps"], "L_nonzero_seen": rec.get("L_nonzero_seen"),
                     "F_out": F_out.tolist(), "F_ref": Fref.tolist()})
         # determinant: det F_out = det F_in * exp(int tr L)
         det_ref = float(np.linalg.det(F_in) * np.exp(world.trace_integral(flow, path, op["t0"], op["t1"])))
@@ -116,7 +178,7 @@ class C06Monitor:
         self.mx("det_err_over_tol", d / det_tol)
         if d > det_tol:
             self.v("det", i, m0, {"det": float(np.linalg.det(F_out)), "det_ref": det_ref,
-                                  "tol": det_tol})
+                                  "tol": det_tol, "family": flow.family, "solver_steps": rec["steps"]})
         # cumulative refinement along the F chain (a bulk update continues the chain of
         # the mineral whose F was handed in and hands the result to every mineral in the list)
         lead = ms[0] if rec["op"] == "update" or op.get("F_from") is None else op["F_from"]
@@ -129,7 +191,9 @@ class C06Monitor:
         bc = call_bound(N, st)
         self.mx("cumulative_rel_over_bound", relc / bc)
         if relc > bc:
-            self.v("cumulative", i, lead, {"rel": relc, "bound": bc, "N": N, "strain": st})
+            self.v("cumulative", i, lead, {"rel": relc, "bound": bc, "N": N, "strain": st,
+                                           "family": flow.family, "solver_steps": rec["steps"],
+                                           "compact_support_in_history": self.compact})
 
 
 def _merged_ops(scn):
@@ -179,8 +243,10 @@ def execute(scn):
             mon.inc("split_vs_whole_checked")
             mon.mx("split_rel_over_tol", rel / tol)
             if rel > tol:
-                mon.v("split_vs_whole", len(scn["ops"]), m, {"rel": rel, "tol": tol, "N": N,
-                                                           "strain": st})
+                fam = world.flows[part_ok[0]["flow"]].family
+                mon.v("split_vs_whole", len(scn["ops"]), m,
+                      {"rel": rel, "tol": tol, "N": N, "strain": st, "family": fam,
+                       "solver_steps": min([r["steps"]] + [x["steps"] for x in part_ok])})
     c = mon.c
     c["update_calls"] = len(world.log)
     c["env.pydrex_get_pathline"] = sum(1 for p_ in world.paths if p_._interp is not None)
@@ -222,7 +288,8 @@ COMPONENTS = {
 ASSUMPTIONS = ["the reference integrator (expm / DOP853 at 1e-11) is exact for the purpose of a 5e-3 bound",
                "independence of phase/fabric/regime/grain count is implied by every mineral's F being "
                "refined against the same reference within the bound"]
-PROBES = ["env.pydrex_get_pathline", "bulk_calls_checked", "split_vs_whole_checked", "calls_checked.posdep",
+PROBES = ["env.pydrex_get_pathline", "calls_checked.pulse", "calls_checked.band",
+          "calls_with_L_zero_at_both_ends_but_not_between", "bulk_calls_checked", "split_vs_whole_checked", "calls_checked.posdep",
           "calls_checked.periodic", "calls_checked.pydrex_cell", "calls_checked.const"]
 
 
